@@ -231,3 +231,41 @@ Example C12_source_example :
   /\ FilterTie.run_is_empty [[32]; []] [] = Ok (FiltLang.FB true)
   /\ FilterTie.run_is_empty [[32]; [120]] [] = Ok (FiltLang.FB false).
 Proof. vm_compute. repeat split; reflexivity. Qed.
+
+(* The control skeletons, of the SOURCE: FilteredFileAdapter.load_policy / load_filtered_policy / save_policy (the flag
+   machine) and CoreEnforcer.load_filtered_policy / load_increment_filtered_policy / save_policy are re-translated on every run
+   (translators/filtered.py, FlagLang.v: every statement one recognised step; load_filtered_policy_file and the two
+   is_filtered methods are checked to be the recognised bodies); FlagTie.v proves that they compute adapter_load_filtered and
+   the steps e_load_filtered / e_load_incr / e_save of which every trace theorem above is made. *)
+From PyCasbin Require FlagLang FlagTie.
+From PyCasbinGen Require FilteredGen.
+
+Theorem C12_source_adapter_load_filtered : forall counts P G file flag m links,
+  FlagTie.run_g counts P G FilteredGen.ad_load_filtered_policy_gen {| s_file := file; s_flag := flag; s_mdl := m; s_links := links |} =
+  let '(flag', m', err) := adapter_load_filtered file flag P G m in
+  ({| s_file := file; s_flag := flag'; s_mdl := m'; s_links := links |}, match err with None => Ok tt | Some e => Err e end).
+Proof. exact FlagTie.tie_adapter_load_filtered. Qed.
+Print Assumptions C12_source_adapter_load_filtered.
+
+Theorem C12_source_load_filtered_policy : forall counts P G st,
+  FlagTie.run_g counts P G FilteredGen.en_load_filtered_policy_gen st = e_load_filtered counts st P G.
+Proof. exact FlagTie.tie_e_load_filtered. Qed.
+Print Assumptions C12_source_load_filtered_policy.
+
+Theorem C12_source_load_increment_filtered_policy : forall counts P G st,
+  FlagTie.run_g counts P G FilteredGen.en_load_increment_filtered_policy_gen st = e_load_incr counts st P G.
+Proof. exact FlagTie.tie_e_load_incr. Qed.
+Print Assumptions C12_source_load_increment_filtered_policy.
+
+Theorem C12_source_save_policy : forall counts P G st,
+  FlagTie.run_g counts P G FilteredGen.en_save_policy_gen st = e_save st.
+Proof. exact FlagTie.tie_e_save. Qed.
+Print Assumptions C12_source_save_policy.
+
+(* hence, of the regenerated source: while the adapter is flagged as filtered, save_policy raises and changes nothing *)
+Theorem C12_source_filtered_save_refused : forall counts P G st, s_flag st = true ->
+  FlagTie.run_g counts P G FilteredGen.en_save_policy_gen st = (st, Err EFilteredSave).
+Proof.
+  intros counts P G st H. rewrite FlagTie.tie_e_save. unfold e_save. rewrite H. reflexivity.
+Qed.
+Print Assumptions C12_source_filtered_save_refused.
